@@ -829,6 +829,32 @@ fn oracle_one(ws: &[u128], ty: &str, rng: &mut Rng, rep: &mut Report, brute: boo
     }
 }
 
+/// integer weights whose total does not fit the weight type (open finding D34): with overflow
+/// checks the constructor panics in `prob0 + prob1`; without them the sums wrap and the code can
+/// be non-optimal.  Every failure of this class is tagged `weight-total-overflows=yes`.
+fn oracle_weight_overflow(rng: &mut Rng, reps: usize, rep: &mut Report) {
+    for i in 0..reps {
+        let ty = if i % 2 == 0 { "u8" } else { "u16" };
+        let max = pow2(type_bits(ty).unwrap()) - 1;
+        let ws: Vec<u128> = if i == 0 {
+            vec![200, 100, 60, 250, 120]
+        } else {
+            let n = rng.range(3, 7) as usize;
+            let mut v: Vec<u128> = (0..n).map(|_| rng.range(max / 4, max)).collect();
+            if v.iter().sum::<u128>() <= max {
+                v[0] = max;
+            }
+            v
+        };
+        rep.count("C15.weight_total_overflows");
+        let mut fails: Vec<(&'static str, String)> = Vec::new();
+        oracle_inner(&ws, None, ty, rng, rep, true, &mut fails);
+        for (prop, text) in fails {
+            rep.fail(prop, format!("huff {} | {} : {} weight-total-overflows=yes (the total {} exceeds {}::MAX: overflow panic in a checked build, wrapped sums and possibly a non-optimal code in a release build)", ty, weights_str(&ws), text, ws.iter().sum::<u128>(), ty));
+        }
+    }
+}
+
 /// arbitrary (inexact) float weights: everything except exact optimality
 fn oracle_float(fw: &[f64], ty: &str, rng: &mut Rng, rep: &mut Report) {
     let mut fails: Vec<(&'static str, String)> = Vec::new();
@@ -1100,6 +1126,7 @@ fn oracle_inner(ws: &[u128], fl: Option<&[f64]>, ty: &str, rng: &mut Rng, rep: &
             continue;
         }
         rep.eval("C09");
+        rep.eval("C15"); // "… and reject symbols outside the alphabet" is a clause of C15 as well
         for prefix in [true, false] {
             crate::util::set_case(&format!("{} : encode {} {:x} (a symbol outside the alphabet)", replay(), if prefix { "prefix" } else { "suffix" }, s));
             let (bits, st) = encode_with(&e, prefix, s as usize, None);
@@ -1111,12 +1138,14 @@ fn oracle_inner(ws: &[u128], fl: Option<&[f64]>, ty: &str, rng: &mut Rng, rep: &
     rep.sample("C15", || format!("{} cost {}", replay(), cost));
     drop(fail);
     for t in c09 {
-        fails.push(("C09", t));
+        fails.push(("C09", t.clone()));
+        fails.push(("C15", t));
     }
 }
 
 pub fn oracle(rng: &mut Rng, tier: &str, rep: &mut Report) {
     let thorough = tier == "thorough";
+    oracle_weight_overflow(&mut rng.fork(), if thorough { 200 } else { 20 }, rep);
     // all vectors over {0..5} up to length 5 (quick) / 7 (thorough), brute force optimum
     let upto = if thorough { 7 } else { 5 };
     let mut idx = 0usize;
